@@ -84,6 +84,17 @@ public:
                           logger_name, log_level, log_level_description, log_level_short_code,
                           named_args, log_message, log_statement, message_format);
 
+    // A named argument value (or a field added by a customised generate_json_message) can contain
+    // new lines as well. They would split the json object over several lines, and a raw new line
+    // is not valid inside a json string anyway, so they are replaced like the ones of the format
+    for (size_t i = 0; i < _json_message.size(); ++i)
+    {
+      if (_json_message[i] == '\n')
+      {
+        _json_message[i] = ' ';
+      }
+    }
+
     _json_message.append(std::string_view{"}\n"});
 
     StreamSink::write_log(log_metadata, log_timestamp, thread_id, thread_name, process_id, logger_name, log_level,
